@@ -78,7 +78,14 @@ inductive EvL (χ : Type) where
   /-- the line `Tell <who> msg` (`who` non-empty, without blank and `>`; `msg` non-empty: what `ParseTell` accepts) -/
   | tell (who msg : String)
 
-def tellLine (who msg : String) : List String := ("Tell <" ++ who ++ "> " ++ msg).splitOn " "
+/-- `strings.Split(s, " ")` on a list of characters (structural, so that the kernel can evaluate it) -/
+def splitSpaces : List Char → List Char → List String
+  | acc, [] => [String.ofList acc.reverse]
+  | acc, ' ' :: cs => String.ofList acc.reverse :: splitSpaces [] cs
+  | acc, ch :: cs => splitSpaces (ch :: acc) cs
+
+/-- `strings.Split("Tell <who> msg", " ")` (`who` contains no blank) -/
+def tellLine (who msg : String) : List String := "Tell" :: ("<" ++ who ++ ">") :: splitSpaces [] msg.toList
 
 def stepL (c : Conf) (S : Searcher σ χ) (mk : Int → σ) (L : StL σ χ) : EvL χ → StL σ χ
   | .base e => afterBase L (step c S L.s e)
